@@ -259,7 +259,10 @@ def build_class(run, cs):
     else:
         bases = bases + mix
     if shape == "namedtuple":
-        bases.append(collections.namedtuple(name + "Base", ["x"]))
+        # (a default for the field, so that the class can be instantiated without arguments - what copy/pickle-style code does)
+        bases.append(collections.namedtuple(name + "Base", ["x"], defaults=[cs.get("nt_default", 1)]))
+        if cs.get("nt_slots"):
+            ns["__slots__"] = ()  # like typing.NamedTuple classes: the instances have no __dict__
     if shape == "listlike" and base is None:
         bases.append(list)  # a built-in with its own (slot-wrapper) __init__ and __new__; the class defines no constructor
     if cs.get("dbc", True) and shape not in ("namedtuple",) and not any(isinstance(b, icontract.DBCMeta) for b in bases):
@@ -422,6 +425,8 @@ def expected(scn, cname, op):
         return set(oc), set(oc)
     if kind == "setattr":
         return set(os_), set(os_)
+    if kind == "delattr":
+        return set(oc), set(oc)
     if kind in ("repr", "poke"):
         return set(), set()
     return None
@@ -447,6 +452,9 @@ def generate(r, tier, forms=False):
     classes_shape = [shapes_root[0]]
     if root["shape"] == "plain" and r.random() < 0.12:
         root["setattr_alias"] = True
+    if root["shape"] == "namedtuple":
+        root["nt_default"] = r.choice([1, 3])
+        root["nt_slots"] = r.random() < 0.5
 
     def gen_members(c, level):
         pool = [("g%d" % level, "gen"), ("m%d" % level, "method"), ("n%d" % level, "method"), ("_p%d" % level, "protected"), ("__q%d" % level, "private"), ("s%d" % level, "static"), ("c%d" % level, "class"), ("pr%d" % level, "prop"), ("_pp%d" % level, "protected_prop")]
@@ -547,6 +555,10 @@ def generate(r, tier, forms=False):
             op = {"op": "new", "cls": c["name"], "obj": label}
             if hierarchy(scn, c["name"])[-1].get("shape") in ("listlike", "namedtuple"):
                 op["content"] = r.choice([0, 1, 2, 3, 3])
+                if hierarchy(scn, c["name"])[-1].get("shape") == "namedtuple" and r.random() < 0.3:
+                    # constructed without arguments: the field takes its default
+                    op["noargs"] = True
+                    op["content"] = hierarchy(scn, c["name"])[-1].get("nt_default", 1)
             if r.random() < 0.12 and core_has_ctor_body(scn, c["name"]):
                 al, _, _ = inv_sets(scn, c["name"])
                 if al:
@@ -588,6 +600,9 @@ def generate(r, tier, forms=False):
             ops.append(o_)
         elif x < 0.25:
             ops.append({"op": "repr", "obj": label})
+        elif x < 0.29 and hierarchy(scn, cname)[-1].get("shape", "plain") in ("plain", "dataclass"):
+            # ``del obj.attr`` of a plain attribute: __delattr__ is a special method like any other (a call, not an assignment)
+            ops.append({"op": "delattr", "obj": label})
         elif members:
             m = r.choice(members)
             if m["kind"] == "protected_prop":
@@ -653,12 +668,14 @@ def _ticket(scn, op, i, tag="a"):
             td["flags"] = op["flags"]
         if "content" in op:
             td["content"] = op["content"]
+        if op.get("noargs"):
+            td["noargs"] = True
         if op.get("ctor_raise"):
             td["body"] = {"fault": {"kind": "raise:FaultError", "at": op["ctor_raise"]}}
         return td
     if kind == "reinit":
         return {"id": tid, "fn": "__init__", "obj": op["obj"], "op": "reinit"}
-    td = {"id": tid, "fn": op.get("member", "-"), "obj": op["obj"], "op": {"call": "call", "acall": "call", "get": "get", "set": "set", "del": "del", "setattr": "setattr", "repr": "repr"}.get(kind, kind)}
+    td = {"id": tid, "fn": op.get("member", "-"), "obj": op["obj"], "op": {"call": "call", "acall": "call", "get": "get", "set": "set", "del": "del", "setattr": "setattr", "delattr": "delattr", "repr": "repr"}.get(kind, kind)}
     if op.get("attr"):
         td["attr"] = op["attr"]
     body = {}
@@ -692,7 +709,7 @@ def _resolve_c03(run, scn):
                 if _root_shape(world, td["cls"]) == "listlike":
                     o = cls(list(range(td.get("content", 1))))
                 elif shape == "namedtuple":
-                    o = cls(td.get("content", 1))
+                    o = cls() if td.get("noargs") else cls(td.get("content", 1))
                 elif shape == "dataclass" or not _spec_has_init(world, td["cls"]):
                     o = cls()
                 else:
@@ -748,6 +765,13 @@ def _resolve_c03(run, scn):
             return (lambda: delattr(obj, fn)), unit, td["obj"]
         if op == "setattr":
             return (lambda: setattr(obj, td.get("attr", "x"), 2)), unit, td["obj"]
+        if op == "delattr":
+
+            def _del():
+                object.__setattr__(obj, "zz_tmp", 1)  # (put there behind the library's back, then deleted the ordinary way)
+                delattr(obj, "zz_tmp")
+
+            return _del, unit, td["obj"]
         if op == "repr":
             return (lambda: repr(obj)), unit, td["obj"]
         return orig(tx)
@@ -927,8 +951,8 @@ def judge(scn, run):
             cnt = collections.Counter(sid for kind, sid, detail in evs if kind == "inv" and detail == label)
             before = set(cnt)
             after = {s for s, n_ in cnt.items() if n_ >= 2}
-        if op["op"] == "setattr":
-            # plain assignment has no instrumented body: a site seen twice was evaluated before and after
+        if op["op"] in ("setattr", "delattr"):
+            # plain assignment / deletion has no instrumented body: a site seen twice was evaluated before and after
             cnt = collections.Counter(sid for kind, sid, detail in evs if kind == "inv" and detail == label)
             before = set(cnt)
             after = {s for s, n_ in cnt.items() if n_ >= 2}
